@@ -489,26 +489,117 @@ def _intersect(check: Check):
   ff = FuncFlow.of(repo, fi)
   check.analysed(fi)
   cs, ce, ns, ne = fi.positional_params
-  fn_for = {}
-  for n in ff.cfg.nodes:
-    if n.kind == 'stmt' and isinstance(n.ast, ast.Assign) and isinstance(n.ast.value, ast.Call) and isinstance(n.ast.targets[0], ast.Name):
-      p = ff.ext(n.ast.value.func)
-      if p in ('builtins.max', 'builtins.min'):
-        args = {ff.param_of(a) or txt(a) for a in n.ast.value.args}
-        fn_for[n.ast.targets[0].id] = (p, args)
-  ok = fn_for.get(ns, (None, None))[0] == 'builtins.max' and fn_for.get(ne, (None, None))[0] == 'builtins.min' and fn_for[ns][1] == {cs, ns} and fn_for[ne][1] == {ce, ne}
-  check.ob('R-DERIVE.intersect', fi, 'start = max(current, new); stop = min(current, new)', ok,
+  # Case table over which of the four bounds are None (the function only ever tests them with `is None`): the result of every
+  # case is computed by following the statements with the tests decided by the case. Independent of how the branches are nested.
+  want = {
+      0: {(False, False): ('builtins.max', frozenset((cs, ns))), (False, True): cs, (True, False): ns, (True, True): None},
+      1: {(False, False): ('builtins.min', frozenset((ce, ne))), (False, True): ce, (True, False): ne, (True, True): None},
+  }
+  verdicts = {'combine': True, 'inherit': True}
+  for cur_none in (False, True):
+    for new_none in (False, True):
+      none = {cs: cur_none, ce: cur_none, ns: new_none, ne: new_none}
+      got = _eval_case(ff, fi.node.body, {p_: p_ for p_ in fi.positional_params}, none)
+      for k in (0, 1):
+        w = want[k][(cur_none, new_none)]
+        g = got[k] if isinstance(got, tuple) and len(got) == 2 else _UNKNOWN
+        if w is None:
+          good = True if (g is None or (isinstance(g, str) and none.get(g))) else (None if g is _UNKNOWN else False)
+        else:
+          good = True if g == w else (None if g is _UNKNOWN else False)
+        key = 'combine' if not (cur_none or new_none) else 'inherit'
+        if good is False:
+          verdicts[key] = False
+        elif good is None and verdicts[key] is True:
+          verdicts[key] = None
+  check.ob('R-DERIVE.intersect', fi, 'start = max(current, new); stop = min(current, new)', verdicts['combine'],
            'slicing a slice intersects the ranges (never enlarges): later start wins by max, earlier stop by min')
-  # None handling: inherits the current bound when the new one is None
-  inherit = 0
-  for n in ff.cfg.nodes:
-    if n.kind == 'stmt' and isinstance(n.ast, ast.Assign) and isinstance(n.ast.targets[0], ast.Name) and isinstance(n.ast.value, ast.Name):
-      if (n.ast.targets[0].id, n.ast.value.id) in ((ns, cs), (ne, ce)):
-        g = guards_of(ff, n.ast)
-        if any(isinstance(t, ast.Compare) and isinstance(t.ops[0], ast.Is) and ff.param_of(t.left) == n.ast.targets[0].id and pol for t, pol in g):
-          inherit += 1
-  check.ob('R-DERIVE.intersect', fi, 'new bound None -> current bound', inherit == 2,
-           'an unspecified new bound keeps the current restriction')
+  check.ob('R-DERIVE.intersect', fi, 'a bound that is None leaves the other one in force', verdicts['inherit'],
+           'an unspecified new bound keeps the current restriction; an unrestricted current range takes the new bound')
+
+
+_UNKNOWN = object()
+
+
+def _eval_case(ff: FuncFlow, body, env, none):
+  """Follows `body` with every `<name> is None` test decided by `none` (param -> is it None); values are parameter names, None, or
+  (max|min, {params}). Returns the returned tuple of values, or _UNKNOWN when a statement is outside this small language."""
+  def val(e):
+    if isinstance(e, ast.Constant) and e.value is None:
+      return None
+    if isinstance(e, ast.Name):
+      return env.get(e.id, _UNKNOWN)
+    if isinstance(e, ast.Call) and ff.ext(e.func) in ('builtins.max', 'builtins.min') and not e.keywords:
+      vs = [val(a) for a in e.args]
+      if all(isinstance(v, str) for v in vs):
+        return (ff.ext(e.func), frozenset(vs))
+      return _UNKNOWN
+    if isinstance(e, ast.Tuple):
+      return tuple(val(x) for x in e.elts)
+    if isinstance(e, ast.IfExp):
+      t = test(e.test)
+      return _UNKNOWN if t is None else val(e.body if t else e.orelse)
+    return _UNKNOWN
+
+  def is_none(v):
+    if v is None:
+      return True
+    if isinstance(v, str):
+      return none.get(v)
+    if isinstance(v, tuple) and v and v[0] in ('builtins.max', 'builtins.min'):
+      return False
+    return None
+
+  def test(t):
+    if isinstance(t, ast.UnaryOp) and isinstance(t.op, ast.Not):
+      r = test(t.operand)
+      return None if r is None else not r
+    if isinstance(t, ast.BoolOp):
+      rs = [test(x) for x in t.values]
+      if isinstance(t.op, ast.And):
+        return False if any(r is False for r in rs) else (None if any(r is None for r in rs) else True)
+      return True if any(r is True for r in rs) else (None if any(r is None for r in rs) else False)
+    if isinstance(t, ast.Compare) and len(t.ops) == 1 and isinstance(t.ops[0], (ast.Is, ast.IsNot)) and isinstance(
+        t.comparators[0], ast.Constant) and t.comparators[0].value is None:
+      r = is_none(val(t.left))
+      return None if r is None else (r if isinstance(t.ops[0], ast.Is) else not r)
+    return None
+
+  def run(stmts):
+    for st in stmts:
+      if isinstance(st, ast.Expr) and isinstance(st.value, ast.Constant):
+        continue
+      if isinstance(st, ast.Pass):
+        continue
+      if isinstance(st, (ast.Assign, ast.AnnAssign)) and (isinstance(st, ast.AnnAssign) or len(st.targets) == 1):
+        tg = st.target if isinstance(st, ast.AnnAssign) else st.targets[0]
+        if st.value is None:
+          continue
+        v = val(st.value)
+        if isinstance(tg, ast.Name):
+          env[tg.id] = v
+        elif isinstance(tg, ast.Tuple) and isinstance(v, tuple) and len(v) == len(tg.elts) and all(isinstance(x, ast.Name) for x in tg.elts):
+          for x, y in zip(tg.elts, v):
+            env[x.id] = y
+        else:
+          return _UNKNOWN
+        continue
+      if isinstance(st, ast.If):
+        t = test(st.test)
+        if t is None:
+          return _UNKNOWN
+        r = run(st.body if t else st.orelse)
+        if r is not None:
+          return r
+        continue
+      if isinstance(st, ast.Return):
+        return val(st.value) if st.value is not None else _UNKNOWN
+      return _UNKNOWN
+    return None
+
+  env = dict(env)
+  r = run(body)
+  return _UNKNOWN if r is None else r
 
 
 def _preprocessors(check: Check):
